@@ -22,6 +22,8 @@ inductive Err where
   | wrapped (id : Nat)      -- EdzedCircuitError made by `SBlock.event`, `__cause__` = exc id
   | reported (id : Nat)     -- EdzedCircuitError made by the ControlBlock 'abort' event, `__cause__` = exc id
   | notInit                 -- EdzedCircuitError("<block>: not initialized") raised by `_init_sblocks_sync_2`
+  | reportedText            -- EdzedCircuitError made by the ControlBlock 'abort' event WITHOUT a `__cause__`: the
+                            -- reported `error` item is not an Exception (a string, missing, a BaseException)
   deriving DecidableEq, Repr, Inhabited
 
 def Err.isCancel : Err → Bool
@@ -152,6 +154,7 @@ inductive Op where
                                   -- (on_output event to another block: the sender's output has changed, which
                                   -- wakes the simulator; or an FSM entry action to its own block: it has not)
   | ctrlAbort (id : Nat)          -- external 'abort' event to the ControlBlock, error = exc id
+  | ctrlAbortText                 -- external 'abort' event to the ControlBlock whose `error` item is not an exception
   | ctrlShutdown                  -- external 'shutdown' event to the ControlBlock
   | armCalc (a : Armed)           -- external event that changes an input of a raising evaluation
   | rawCancel                     -- `simtask.cancel()`
@@ -243,6 +246,8 @@ def step (s : St) : Op → St × Out
     else (s, { reply := .invalidState })
   | .ctrlAbort id =>
     if s.ready then (s.abort (.reported id), { dels := [.reported id] }) else (s, { reply := .invalidState })
+  | .ctrlAbortText =>
+    if s.ready then (s.abort .reportedText, { dels := [.reportedText] }) else (s, { reply := .invalidState })
   | .ctrlShutdown =>
     if s.ready then (s.abort (.cancelled 2), { dels := [.cancelled 2] }) else (s, { reply := .invalidState })
   | .armCalc a =>
